@@ -58,19 +58,24 @@ conf() {
     C12) PKG=c12; RACE=1; QLIM=1500;;
     C13) PKG=c13;;
     C14) PKG=c14;;
+    C19) PKG=c19;;
     C20) PKG=c20; FUZZ="FuzzAlgebra"; FUZZTIME=180;;
     *) return 1;;
   esac
   QT="${QT}"; return 0
 }
 
-ALL_IDS="C01 C02 C03 C04 C05 C06 C07 C08 C11 C12 C13 C14 C20"
+ALL_IDS="C01 C02 C03 C04 C05 C06 C07 C08 C11 C12 C13 C14 C19 C20"
 
 build_one() { # id -> builds $BIN
   conf "$1" || { echo "check.sh: unknown property $1" >&2; return 2; }
   local flags=(-tags verif)
   [ "$RACE" = 1 ] && flags+=(-race)
   mkdir -p "$ROOT/.work/bin"
+  if [ "$PKG" = c19 ]; then
+    # static scan of the module's sources -> generated schema registry (new schemas are picked up automatically)
+    (cd "$H" && "$GO" run ./tools/scan "$REPO" github.com/pancsta/asyncmachine-go "$H/c19/registry_gen.go") || return 2
+  fi
   BIN="$ROOT/.work/bin/$PKG.test"
   (cd "$H" && "$GO" test -c "${flags[@]}" -o "$BIN" "./$PKG")
 }
